@@ -13,7 +13,7 @@ with open(os.path.join(V, "seeded", "RESULTS.md"), "w") as f:
             % (len(rows), sum(1 for r in rows if r[2] == "DETECTED")))
     for r in rows:
         f.write("| %s | %s | %s | %s | %s |\n" % r)
-res = [json.load(open(p)) for p in sorted(glob.glob(os.path.join(V, "benign", "C*-[bc]*", "result*.json")))]
+res = [json.load(open(p)) for p in sorted(glob.glob(os.path.join(V, "benign", "C*-[bcd]*", "result*.json")))]
 with open(os.path.join(V, "benign", "RESULTS.md"), "w") as f:
     f.write("# Property-preserving changes vs. checks (quick tier)\n\nExpected: quiet.  %d runs, %d quiet.  `wb skipped` = the white-box driver part no longer compiled and was left out.\n\n"
             "| change | property | outcome | white-box part skipped |\n|---|---|---|---|\n" % (len(res), sum(1 for r in res if r["verdict"].startswith("quiet"))))
